@@ -16,23 +16,25 @@ pub struct Interval {
     pub min: u128,
     /// UNBOUNDED when no finite maximum exists
     pub max: u128,
+    /// false when `min` is only a lower bound, not a length some encoding has (compressed payloads)
+    pub min_achievable: bool,
 }
 
 impl Interval {
     pub fn exact(n: u128) -> Self {
-        Interval { min: n, max: n }
+        Interval { min: n, max: n, min_achievable: true }
     }
     pub fn new(min: u128, max: u128) -> Self {
-        Interval { min, max }
+        Interval { min, max, min_achievable: true }
     }
     pub fn add(self, o: Interval) -> Interval {
-        Interval { min: self.min.saturating_add(o.min), max: if self.max == UNBOUNDED || o.max == UNBOUNDED { UNBOUNDED } else { self.max.saturating_add(o.max) } }
+        Interval { min: self.min.saturating_add(o.min), max: if self.max == UNBOUNDED || o.max == UNBOUNDED { UNBOUNDED } else { self.max.saturating_add(o.max) }, min_achievable: self.min_achievable && o.min_achievable }
     }
     pub fn hull(self, o: Interval) -> Interval {
-        Interval { min: self.min.min(o.min), max: self.max.max(o.max) }
+        Interval { min: self.min.min(o.min), max: self.max.max(o.max), min_achievable: if self.min < o.min { self.min_achievable } else if o.min < self.min { o.min_achievable } else { self.min_achievable || o.min_achievable } }
     }
     pub fn times(self, lo: u128, hi: u128) -> Interval {
-        Interval { min: self.min.saturating_mul(lo), max: if self.max == UNBOUNDED || hi == UNBOUNDED { if self.max == 0 || hi == 0 { 0 } else { UNBOUNDED } } else { self.max.saturating_mul(hi) } }
+        Interval { min: self.min.saturating_mul(lo), max: if self.max == UNBOUNDED || hi == UNBOUNDED { if self.max == 0 || hi == 0 { 0 } else { UNBOUNDED } } else { self.max.saturating_mul(hi) }, min_achievable: self.min_achievable || lo == 0 }
     }
     pub fn is_constant(&self) -> bool {
         self.min == self.max
@@ -57,6 +59,8 @@ pub struct Sizer<'a> {
     memo: BTreeMap<usize, Interval>,
     pub cstring_max: u128,
     pub sized_cstring_max: u128,
+    /// largest achievable UpdateMask wire size, when known for this namespace
+    pub update_mask_max: Option<u128>,
     pub problems: Vec<String>,
 }
 
@@ -123,7 +127,7 @@ fn find_field<'m>(members: &'m [Member], name: &str) -> Option<&'m Field> {
 
 impl<'a> Sizer<'a> {
     pub fn new(u: &'a Universe, ns: Ns) -> Self {
-        Sizer { u, ns, memo: BTreeMap::new(), cstring_max: 255, sized_cstring_max: 7999, problems: vec![] }
+        Sizer { u, ns, memo: BTreeMap::new(), cstring_max: 255, sized_cstring_max: 7999, update_mask_max: None, problems: vec![] }
     }
 
     pub fn type_interval(&mut self, ty: &str, upcast: Option<&str>) -> Interval {
@@ -157,7 +161,7 @@ impl<'a> Sizer<'a> {
             "MonsterMoveSplines" => Interval::new(4, UNBOUNDED),
             "AchievementDoneArray" | "AchievementInProgressArray" => Interval::new(4, UNBOUNDED),
             // u8 block count, blocks, values; a canonical mask carries the TYPE field
-            "UpdateMask" => Interval::new(1 + 4 + 4, 1 + 255 * 4 + 255 * 32 * 4),
+            "UpdateMask" => Interval::new(1 + 4 + 4, self.update_mask_max.unwrap_or(1 + 255 * 4 + 255 * 32 * 4)),
             "AddonArray" => Interval::new(0, UNBOUNDED),
             _ => match self.u.lookup_idx(self.ns, ty) {
                 None => {
@@ -221,7 +225,7 @@ impl<'a> Sizer<'a> {
                             };
                             if f.tags.is_true("compressed") {
                                 // u32 decompressed size + zlib stream (nothing when empty)
-                                Interval::new(4, UNBOUNDED)
+                                Interval { min: 4, max: UNBOUNDED, min_achievable: a.min == 0 }
                             } else {
                                 a
                             }
@@ -280,9 +284,7 @@ impl<'a> Sizer<'a> {
         let Some(c) = o.container().cloned() else {
             return SizeInfo { interval: Interval::exact(0), min_assign: BTreeMap::new(), max_assign: BTreeMap::new(), assignments: 0, approximate: false };
         };
-        if o.tags.is_true("compressed") {
-            return SizeInfo { interval: Interval::new(4, UNBOUNDED), min_assign: BTreeMap::new(), max_assign: BTreeMap::new(), assignments: 1, approximate: false };
-        }
+        let compressed = o.tags.is_true("compressed");
         let mut vars: BTreeMap<String, Vec<String>> = BTreeMap::new();
         collect_if_vars(&c.members, &mut vars);
         // candidate values per variable
@@ -352,7 +354,11 @@ impl<'a> Sizer<'a> {
                 break;
             }
         }
-        let (interval, min_assign, max_assign) = best.unwrap();
+        let (mut interval, min_assign, max_assign) = best.unwrap();
+        if compressed {
+            // u32 decompressed size + zlib stream of the members (nothing when they are empty)
+            interval = Interval { min: 4, max: UNBOUNDED, min_achievable: interval.min == 0 };
+        }
         SizeInfo { interval, min_assign, max_assign, assignments, approximate }
     }
 }
